@@ -1371,6 +1371,24 @@ func (env *SpecEnv) call(x *ast.CallExpr, subs map[string]*SpecExpr) SV {
 				arr := vc.ufApp("zlib_inflate", ArrSort(is, vc.byteSort()), st0.Data, off, n)
 				return SV{V: Select(arr, env.idxTerm(as[3])), T: types.Typ[types.Uint8]}
 			}
+		case "neverwritten":
+			// neverwritten(buf): the bytes.Buffer has not been written to (its Bytes() is nil)
+			a := env.expr(x.Args[0], subs)
+			v := a.V
+			if p, ok := v.(PtrVal); ok && p.Cell != nil {
+				v = vc.load(env.st, p)
+			}
+			b, ok := v.(BufferObj)
+			if !ok {
+				sfail("neverwritten: not a bytes.Buffer (%T)", v)
+			}
+			if b.Fresh {
+				return SV{V: TTrue(), T: boolT}
+			}
+			if b.FreshT != nil {
+				return SV{V: *b.FreshT, T: boolT}
+			}
+			return SV{V: TFalse(), T: boolT}
 		case "stream_len", "stream_at", "stream_err":
 			// what a reader value will still deliver: length, byte j, and the final error
 			as := env.args(x, subs)
